@@ -64,7 +64,7 @@ def main():
             meta["detected_by"] = hits
             meta["first_report"] = {pid: (res[pid][1][0][:300] if res[pid][1] else "") for pid in hits}
             json.dump(meta, open(os.path.join(seed, "meta.json"), "w"), indent=1)
-        own = os.path.basename(os.path.dirname(seed)) if os.path.basename(seed) in ("a", "b") else os.path.basename(seed).split("-")[0]
+        own = os.path.basename(os.path.dirname(seed)) if len(os.path.basename(seed)) == 1 else os.path.basename(seed).split("-")[0]
         tag = "CAUGHT" if hits else "missed"
         if hits:
             caught += 1
